@@ -38,6 +38,9 @@ pub struct CbcCase {
     pub callers: Vec<CbCaller>,
     pub force_open_at: Option<u64>,
     pub order: Vec<u8>,
+    /// the fallback future needs this many ms (0 = resolves at once)
+    #[serde(default)]
+    pub fallback_ms: u64,
 }
 
 fn small_config() -> BoxedStrategy<CbConfig> {
@@ -124,15 +127,17 @@ fn case_strategy(tier: Tier) -> BoxedStrategy<CbcCase> {
         prop::collection::vec(caller, 2..=callers_hi),
         prop_oneof![3 => Just(None), 1 => gen::instant(200).prop_map(Some)],
         prop::collection::vec(any::<u8>(), 0..=48),
+        prop_oneof![3 => Just(0u64), 1 => 1u64..=25, 1 => Just(10u64)],
     )
         .prop_map(
-            |(cfg, fallback, clones, callers, force_open_at, order)| CbcCase {
+            |(cfg, fallback, clones, callers, force_open_at, order, fallback_ms)| CbcCase {
                 cfg,
                 fallback,
                 clones,
                 callers,
                 force_open_at,
                 order,
+                fallback_ms,
             },
         )
         .boxed()
@@ -266,8 +271,13 @@ async fn interp(case: &CbcCase) -> Verdict {
         .build();
     let plain = layer.layer_fn(inner.clone());
     let base = if case.fallback {
-        Handle::Fb(plain.with_fallback(|req: Req| -> BoxFuture<'static, Result<Resp, SErr>> {
+        let fb_ms = case.fallback_ms;
+        Handle::Fb(plain.with_fallback(move |req: Req| -> BoxFuture<'static, Result<Resp, SErr>> {
             Box::pin(async move {
+                if fb_ms > 0 {
+                    // a fallback that itself has to wait (secondary backend, cache lookup)
+                    tokio::time::sleep(std::time::Duration::from_millis(fb_ms)).await;
+                }
                 Ok(Resp {
                     serial: FB_BASE + req.id as u64,
                     req,
@@ -285,7 +295,8 @@ async fn interp(case: &CbcCase) -> Verdict {
         .max()
         .unwrap_or(0)
         .max(case.force_open_at.unwrap_or(0))
-        + 160;
+        + 160
+        + case.fallback_ms;
     let mut task: Vec<Option<usize>> = vec![None; n];
     let mut cancelled_at: Vec<Option<u64>> = vec![None; n];
     // futures obtained from call() but not yet handed to the executor
@@ -298,8 +309,14 @@ async fn interp(case: &CbcCase) -> Verdict {
             sim.begin_instant().await;
         }
         if case.force_open_at == Some(t) {
-            base.force_open().await;
-            log.note("force_open", 0, 0);
+            // through the simulator like every caller: if the circuit's lock is held by somebody's
+            // pending future, this waits with it instead of blocking the whole run
+            let h = base.clone();
+            let lg = log.clone();
+            sim.spawn(async move {
+                h.force_open().await;
+                lg.note("force_open", 0, 0);
+            });
         }
         for i in 0..n {
             if callers[i].at == t {
@@ -496,6 +513,9 @@ async fn interp(case: &CbcCase) -> Verdict {
             v.c03
                 .push(format!("caller {i} reached the inner service {enters} times"));
         }
+        // a rejected caller is answered at once: by the error, or by its fallback future, which
+        // takes exactly `fallback_ms` (nobody else's fallback may hold it up)
+        let fb_wait = if case.fallback { case.fallback_ms } else { 0 };
         let rejected_shape = |out: &Outcome| -> bool {
             match out {
                 Outcome::Layer(nm) => !case.fallback && nm == "OpenCircuit",
@@ -521,9 +541,11 @@ async fn interp(case: &CbcCase) -> Verdict {
                     ));
                 }
                 match &resolve {
-                    Some((tr, out)) if *tr == t && rejected_shape(out) => {}
+                    Some((tr, out)) if *tr == t + fb_wait && rejected_shape(out) => {}
                     other => {
-                        if cancelled_at[i] != Some(t) {
+                        let cancelled_meanwhile =
+                            cancelled_at[i].map_or(false, |c| c >= t && c <= t + fb_wait);
+                        if !cancelled_meanwhile {
                             dest.push(format!(
                                 "caller {i} first polled at t={t} while {why}: expected an immediate {} but got {:?}",
                                 if case.fallback { "fallback response for its own request" } else { "OpenCircuit error" },
@@ -545,6 +567,19 @@ async fn interp(case: &CbcCase) -> Verdict {
                 v.c03.push(format!(
                     "caller {i} was admitted at t={te} (inner call {serial}) but resolved with {out:?}"
                 ));
+            }
+            // "calls admitted before it opened may still complete": an admitted call resolves in the
+            // instant its inner call completes, whatever rejected callers are doing meanwhile
+            let done = snap.iter().find_map(|e| match e {
+                Ev::Done { t, serial: s, .. } if *s == serial => Some(*t),
+                _ => None,
+            });
+            if let (Some(dt), Some((rt, _))) = (done, &resolve) {
+                if rt != &dt {
+                    v.c03.push(format!(
+                        "caller {i}: its inner call {serial} completed at t={dt} but the call resolved only at t={rt}"
+                    ));
+                }
             }
         }
         if let (None, Some((tr, out))) = (enter, &resolve) {
